@@ -155,6 +155,8 @@ def run_models(prop, tier, seed, bins, workdir):
         runs.extend(mchist.run(prop, tier, seed, bins, workdir))
     except ImportError:
         pass
+    import mcstore
+    runs.extend(mcstore.run(prop, tier, workdir))
     for r in runs:
         total["states"] += r["states"]
         total["transitions"] += r["transitions"]
